@@ -214,3 +214,117 @@ Proof.
   unfold of_model, pre_w, ret. cbn [fst snd].
   rewrite !checked_app, checked_repeat, !app_nil_r. reflexivity.
 Qed.
+
+(* ================================================================ RenderTo *)
+From Tab Require Import Spec.CsvParse Proofs.CsvProofs Proofs.CsvSessionProofs.
+
+(* how a loop over the rows ends, given how the model's running form ends *)
+Definition tr_out {S L R} (e : res unit) (s : S) : fres (ctl S L R) :=
+  match e with Ok _ => Done (Ok (Norm s)) | Err => Done Err | Panic => Done Panic end.
+
+Definition rows_records (rs : list vrow) : list (list bytes) :=
+  map row_texts (flat_map (fun r => match r with Some cs => [cs] | None => [] end) rs).
+
+Definition rows_inv {L' R} (n : nat) (rs : list vrow) (l : unit) (ws : wlist) (o : fres (ctl unit L' R)) : Prop :=
+  ws = checked (fst (csv_emit_rows_tr n (rows_records rs)))
+  /\ o = tr_out (snd (csv_emit_rows_tr n (rows_records rs))) tt.
+
+Lemma of_model_cases n cells :
+  (exists w, csv_emit_row n (row_texts cells) = Ok w /\ src_emitRow (Z.of_nat n) cells = (checked w, Done (Ok tt)))
+  \/ (csv_emit_row n (row_texts cells) = Err /\ src_emitRow (Z.of_nat n) cells = ([], Done Err))
+  \/ (csv_emit_row n (row_texts cells) = Panic /\ src_emitRow (Z.of_nat n) cells = ([], Done Panic)).
+Proof.
+  rewrite src_emitRow_is_model. destruct (csv_emit_row n (row_texts cells)) as [w| |]; cbn [of_model]; eauto.
+Qed.
+
+(* RenderTo as it runs: the writes issued (all checked, also when it stops with
+   an error part-way) and how it ends are those of the model's running form *)
+Theorem src_RenderTo_trace : forall v,
+  src_RenderTo v = (checked (fst (csv_render_to_tr v)), Done (snd (csv_render_to_tr v))).
+Proof.
+  intros v. unfold src_RenderTo, csv_render_to_tr, tbl_InvokeRenderCallbacks, tbl_NColumns, tbl_Headers, tbl_AllRows.
+  wstep. set (n := v_ncols v).
+  destruct (n <? 1)%nat eqn:E.
+  { apply Nat.ltb_lt in E. assert (H : (Z.of_nat n <? 1) = true) by (apply Z.ltb_lt; lia). rewrite H. reflexivity. }
+  apply Nat.ltb_ge in E. assert (H : (Z.of_nat n <? 1) = false) by (apply Z.ltb_ge; lia). rewrite H. clear H. wstep.
+  (* the loop over the rows, for any list of rows *)
+  match goal with |- context [range_loop _ ?body tt] =>
+    assert (Hloop : forall rs : list vrow,
+      range_loop (L':=Empty_set) (R:=unit) rs body tt
+      = (checked (fst (csv_emit_rows_tr n (rows_records rs))), tr_out (snd (csv_emit_rows_tr n (rows_records rs))) tt))
+  end.
+  { intros rs. apply (range_rule _ (rows_inv n)); [| |split; reflexivity].
+    - intros [] ws o [-> ->]. split; reflexivity.
+    - intros r rs' [] ws o [-> ->]. destruct r as [cs|].
+      + cbn [row_IsSeparator row_Cells slice_of]. wstep.
+        unfold rows_records. cbn [flat_map app map csv_emit_rows_tr]. fold (rows_records rs').
+        destruct (of_model_cases n cs) as [(w & -> & ->) | [[-> ->] | [-> ->]]].
+        * left. exists (checked w), tt, (checked (fst (csv_emit_rows_tr n (rows_records rs')))).
+          split; [left; wstep; unfold pre_w, ret; cbn [fst snd]; rewrite app_nil_r; reflexivity|].
+          unfold rows_inv. destruct (csv_emit_rows_tr n (rows_records rs')) as [ws e]. cbn [fst snd].
+          split; [apply checked_app|]. split; reflexivity.
+        * right. intros k. reflexivity.
+        * right. intros k. reflexivity.
+      + left. cbn [row_IsSeparator]. wstep. exists [], tt, (checked (fst (csv_emit_rows_tr n (rows_records (None :: rs'))))).
+        split; [right; reflexivity|]. split; [reflexivity|]. split; reflexivity. }
+  unfold csv_records, body_rows. fold (rows_records (v_rows v)).
+  destruct (v_header v) as [h|]; cbn [not_nil slice_of app csv_emit_rows_tr].
+  - destruct (of_model_cases n h) as [(w & -> & ->) | [[-> ->] | [-> ->]]]; try reflexivity.
+    wstep. rewrite Hloop.
+    destruct (csv_emit_rows_tr n (rows_records (v_rows v))) as [ws [[]| |]]; cbn [fst snd tr_out];
+      unfold fn_body; wstep; unfold pre_w, ret, sbind, mbind; cbn [fst snd]; rewrite ?app_nil_r, ?checked_app; reflexivity.
+  - wstep. rewrite Hloop.
+    destruct (csv_emit_rows_tr n (rows_records (v_rows v))) as [ws [[]| |]]; cbn [fst snd tr_out];
+      unfold fn_body; wstep; unfold pre_w, ret, sbind, mbind; cbn [fst snd]; rewrite ?app_nil_r, ?checked_app; reflexivity.
+Qed.
+
+Lemma csv_render_writes_tr v : csv_render_writes v = tr_result (csv_render_to_tr v).
+Proof.
+  unfold csv_render_writes, csv_render_to_tr. destruct (v_ncols v <? 1)%nat; [reflexivity|].
+  apply csv_emit_rows_tr_agrees.
+Qed.
+
+Lemma payloads_checked l : payloads (checked l) = concat l.
+Proof. unfold payloads, checked. rewrite map_map. cbn [fst]. rewrite map_id. reflexivity. Qed.
+
+(* the outcome of the model's write list, as an outcome of RenderTo *)
+Definition outcome_of (r : res (list bytes)) : res unit :=
+  match r with Ok _ => Ok tt | Err => Err | Panic => Panic end.
+
+(* For EVERY view (no hypothesis): RenderTo of the translated source ends as
+   Model/Csv.v's csv_render_writes says (ok / error; never a panic, never out of
+   fuel); when that is Ok ws the writes are exactly ws, in order; and every
+   write it ever issues - also before an error part-way - is checked. *)
+Theorem src_RenderTo_is_model : forall v,
+  snd (src_RenderTo v) = Done (outcome_of (csv_render_writes v))
+  /\ (forall ws, csv_render_writes v = Ok ws -> src_RenderTo v = (checked ws, Done (Ok tt)))
+  /\ all_checked (fst (src_RenderTo v)).
+Proof.
+  intros v. rewrite src_RenderTo_trace, csv_render_writes_tr. unfold tr_result.
+  destruct (csv_render_to_tr v) as [ws [[]| |]]; cbn [fst snd outcome_of].
+  all: split; [reflexivity|]; split; [|apply all_checked_checked].
+  all: intros ws' H; inversion H; reflexivity.
+Qed.
+
+Theorem src_RenderTo_no_panic_no_fuel : forall v,
+  snd (src_RenderTo v) = Done (Ok tt) \/ snd (src_RenderTo v) = Done Err.
+Proof.
+  intros v. destruct (src_RenderTo_is_model v) as [H _]. rewrite H.
+  pose proof (csv_no_panic v) as Hp. unfold csv_render in Hp.
+  destruct (csv_render_writes v); cbn [outcome_of bind] in *; auto. congruence.
+Qed.
+
+(* the round trip, for what the TRANSLATED SOURCE writes *)
+Theorem src_RenderTo_roundtrip : forall v ws,
+  src_RenderTo v = (ws, Done (Ok tt)) ->
+  parse_csv (payloads ws) = Some (map (pad_to (v_ncols v)) (csv_records v))
+  /\ Forall (fun r => length r = v_ncols v) (map (pad_to (v_ncols v)) (csv_records v))
+  /\ all_checked ws.
+Proof.
+  intros v ws H. destruct (src_RenderTo_is_model v) as (Ho & Hw & Hc).
+  rewrite H in Ho, Hc. cbn [fst snd] in Ho, Hc.
+  destruct (csv_render_writes v) as [l| |] eqn:E; cbn [outcome_of] in Ho; try discriminate.
+  rewrite (Hw l eq_refl) in H. inversion H; subst ws.
+  assert (Hr : csv_render v = Ok (concat l)) by (unfold csv_render; rewrite E; reflexivity).
+  destruct (csv_roundtrip v _ Hr) as [H1 H2]. rewrite payloads_checked. auto.
+Qed.
